@@ -822,7 +822,7 @@ pub fn calibrate() -> String {
     let dir = std::env::temp_dir().join(format!("pool-calib-{}", std::process::id()));
     let dirs = dir.to_string_lossy().to_string();
     let mut out = Out::new(&dirs);
-    let (release, readd, atomic, normal, dupin) = rt.block_on(async {
+    let (release, readd, atomic, normal, dupin, clock) = rt.block_on(async {
         // release: after A2, PX the reservations are gone
         let w = run_seq(7, "calib-release", &[K::A2, K::PX], &mut out).await;
         let release = w.node.mempool.transactions.is_empty() && w.node.mempool.utxo_map.is_empty();
@@ -848,11 +848,16 @@ pub fn calibrate() -> String {
         // repeated input: such a transaction does not enter the pool
         let w = run_seq(7, "calib-dupin", &[K::AA], &mut out).await;
         let dupin = w.node.mempool.transactions.is_empty();
-        (release, readd, atomic, normal, dupin)
+        // clock: a bundle attempt at the tip's own timestamp returns None instead of asserting
+        let mut w = run_seq(7, "calib-clock", &[K::A1], &mut out).await;
+        let tipb = w.tip();
+        let res = guarded_async(w.node.mempool.bundle_block(&w.node.blockchain, tipb.timestamp, None, &w.node.cfg, &w.node.storage)).await;
+        let clock = matches!(res, Ok(None));
+        (release, readd, atomic, normal, dupin, clock)
     });
     drop(out);
     let _ = std::fs::remove_dir_all(&dir);
-    format!("release={} readd={} atomic={} normal={} dupin={}", release as u8, readd as u8, atomic as u8, normal as u8, dupin as u8)
+    format!("release={} readd={} atomic={} normal={} dupin={} clock={}", release as u8, readd as u8, atomic as u8, normal as u8, dupin as u8, clock as u8)
 }
 
 pub fn run(seed: u64, tier: &str, outdir: &str) {
